@@ -15,7 +15,7 @@ SPEC = {
     "driver": "drv_c07",
     "harness": "c07",
     "theorems": ["C07_strictly_increasing", "C07_release_wastes_none", "C07_crash_wastes_le_interval",
-                 "C07_next_returns_frontier", "C07_budget_step", "C07_skeleton_next", "C07_skeleton_release", "C07_skeleton_update"],
+                 "C07_next_returns_frontier", "C07_budget_step", "C07_store_error_harmless", "C07_skeleton_next", "C07_skeleton_release", "C07_skeleton_update"],
     "trusted_base": ["hand-written model Hive/Model/Seq.lean of kvstore/sequence.go, tied by differential execution (harness/c07)",
                      "Go toolchain, compiled Lean driver"],
     "modelled": ["kvstore.Sequence Next/Release/update/NewSequence as micro-steps over one stored mark",
